@@ -119,6 +119,18 @@ PerturbCoord(pen, n, X, C, W, j, dn, dd, sc) ==
       t3 == MulDiv(Abs(W[j][1] + (dn * sc) \div dd) - Abs(W[j][1]), PTh(pen, n), PD(pen))
       t4 == MulDiv((2 * dn * W[j][1]) \div dd + sc \div (dd * dd), PL2(pen, n), 2 * PD(pen))
   IN t1 + t2 + t3 + t4
+\* multi-task: a lower bound of n * (Obj(W + delta e_jt) - Obj(W)) (the row norm enters through NormLo / NormHi)
+PerturbEntryLo(pen, n, X, C, W, j, tt, dn, dd, sc) ==
+  LET wp == [W[j] EXCEPT ![tt] = @ + (dn * sc) \div dd]
+      t1 == -((dn * C[j][tt]) \div dd)
+      t2 == ColSq(X, j) * (sc \div (2 * dd * dd))
+      t3 == MulDiv(NormLo(wp) - NormHi(W[j]), PTh(pen, n), PD(pen))
+      t4 == MulDiv((2 * dn * W[j][tt]) \div dd + sc \div (dd * dd), PL2(pen, n), 2 * PD(pen))
+  IN t1 + t2 + t3 + t4
+\* how far that lower bound can lie below the true value: the brackets of the two row norms
+PerturbEntrySlack(pen, n, W, j, tt, dn, dd, sc) ==
+  LET wp == [W[j] EXCEPT ![tt] = @ + (dn * sc) \div dd]
+  IN ((NormErr(W[j]) + NormErr(wp) + 2) * PTh(pen, n)) \div PD(pen) + 1
 PerturbIcpt(n, R, tt, dn, dd, sc) == -((dn * ResSum(R, tt)) \div dd) + n * (sc \div (2 * dd * dd))
 
 \* tolerance * ||y_centred||^2 at scale sc (the documented stopping threshold), tolerance = 10^-te
